@@ -307,7 +307,9 @@ class Wav(AbstractWav):
 
     def _getIndexAtTime(self, startTime: float) -> int:
         """Gets the index in the frame list for the given time"""
-        return round(startTime * self.frameRate * self.sampleWidth)
+        # Round to the nearest sample first so that the index never
+        # falls in the middle of a multi-byte sample
+        return round(startTime * self.frameRate) * self.sampleWidth
 
     @classmethod
     def open(cls, fn: str) -> "Wav":
